@@ -133,7 +133,8 @@ Theorem C15_first_failing_step_from_text : forall cfg parse_float regex_ok ffun 
 Proof. exact name_path_error. Qed.
 Print Assumptions C15_first_failing_step_from_text.
 
-(* The same for paths of name steps AND index steps `[n]` (ErrSteps.v; n in decimal, negative counts from the end): the first step
+(* The same for paths of name steps AND index steps `[n]` (ErrSteps.v; n written with digits — step_ok; a signed index is a
+   one-entry union for the grammar and belongs to the union theorems of C11): the first step
    that cannot be taken is named as written — "member did not exist" for a missing member or an index outside the array, "type
    unmatched" with the expected container (object for a name, array for an index) and the Go type found there. *)
 From JP Require Import ErrSteps.
@@ -150,12 +151,13 @@ Theorem C15_first_failing_step_with_indexes_from_text : forall cfg parse_float r
 Proof. exact loc_path_error. Qed.
 Print Assumptions C15_first_failing_step_with_indexes_from_text.
 
-(* `$.a[2].b` on {"a":[{"b":1},7]}: the index is outside the array; `$.a[1].b`: 7 is not an object; `$.a[-2].b`: found *)
+(* `$.a[2].b` on {"a":[{"b":1},7]}: the index is outside the array; `$.a[1].b`: 7 is not an object; `$.a[0].b`: found *)
 Example C15_index_steps_example :
   let doc := VObj [("a", VArr [VObj [("b", VNum (num_of_Z 1))]; VNum (num_of_Z 7)])]%string in
   first_fail2 doc [SDot [97%N]; SIdx [50%N]; SDot [98%N]] = Some (SIdx [50%N], None) /\
   first_fail2 doc [SDot [97%N]; SIdx [49%N]; SDot [98%N]] = Some (SDot [98%N], Some ("object", "float64"))%string /\
-  first_fail2 doc [SDot [97%N]; SIdx [45%N; 50%N]; SDot [98%N]] = None /\
+  first_fail2 doc [SDot [97%N]; SIdx [48%N]; SDot [98%N]] = None /\
+  forallb step_ok [SDot [97%N]; SIdx [48%N]; SDot [98%N]] = true /\
   first_fail2 doc [SDot [97%N]; SDot [98%N]] = Some (SDot [98%N], Some ("object", "[]interface {}"))%string /\
   first_fail2 doc [SIdx [48%N]] = Some (SIdx [48%N], Some ("array", "map[string]interface {}"))%string.
 Proof. repeat split; vm_compute; reflexivity. Qed.
